@@ -402,7 +402,7 @@ func drawNormalParams(t *rapid.T) (mu, sigma float64) {
 
 func TestNormal(t *testing.T) {
 	ev.Rule(rule)
-	ev.Rapid(t, "c05-normal", 2500, 400000, func(rt *rapid.T) {
+	ev.Rapid(t, "c05-normal", 12000, 400000, func(rt *rapid.T) {
 		c := &NormCase{Seed: int64(rapid.IntRange(1, 1<<30).Draw(rt, "seed"))}
 		c.Mu, c.Sigma = drawNormalParams(rt)
 		n := rapid.IntRange(1, 10).Draw(rt, "nx")
@@ -418,7 +418,7 @@ func TestNormal(t *testing.T) {
 }
 
 func TestNormalRand(t *testing.T) {
-	ev.Rapid(t, "c05-normal-rand", 20, 640, func(rt *rapid.T) {
+	ev.Rapid(t, "c05-normal-rand", 40, 640, func(rt *rapid.T) {
 		c := &RandCase{Seed: int64(rapid.IntRange(1, 1<<30).Draw(rt, "seed")), N: 50000}
 		c.Mu, c.Sigma = drawNormalParams(rt)
 		checkNormalRand.Run(rt, c)
@@ -427,7 +427,7 @@ func TestNormalRand(t *testing.T) {
 
 func TestT(t *testing.T) {
 	ev.Rule(rule)
-	ev.Rapid(t, "c05-t", 2500, 400000, func(rt *rapid.T) {
+	ev.Rapid(t, "c05-t", 12000, 400000, func(rt *rapid.T) {
 		c := &TCase{}
 		switch rapid.IntRange(0, 5).Draw(rt, "v.kind") {
 		case 0:
